@@ -295,7 +295,22 @@ def _concur_setup(case):
     return calls, warm, judge
 
 
+def deep_ops(job):
+    """multiplications of the generator and of another point by 3-4 bit scalars on the 31-element curve (every loop iteration is
+    within the line-hit bound of the deep pass), a public key derivation"""
+    cv = job["curve"]
+    C = smallcurve.curve(cv)
+    return [("mul", {"curve": cv, "k": 7, "P": list(C.G)}), ("mul", {"curve": cv, "k": 13, "P": list(C.G)}), ("mul", {"curve": cv, "k": 11, "P": list(C.mul(3, C.G))}),
+            ("privkey", {"curve": cv, "key": (9).to_bytes(32, "big").hex()}), ("mul", {"curve": cv, "k": C.n + 5, "P": list(C.G)})]
+
+
+DEEP_SCEN = [((0, 1), ()), ((1, 3), ()), ((0, 2), (4,))]
+
+
 def run_case(kind, case):
+    if kind == "concurcase":
+        from vf import concur
+        return concur.replay_cases(run_case, PROPERTY, case, ("bits/ecmath.py", "bits/utils.py", "bits/keys.py"))
     if kind == "concur":
         from vf import concur
         calls, warm, judge = _concur_setup(case)
@@ -397,6 +412,8 @@ def jobs(tier, seed):
     js += seq_jobs(1, weight=3, name="seqreal")
     from vf.runner import histconcur_jobs
     js += histconcur_jobs(curve=list(smallcurve.TABLE[0]))
+    for i in range(len(DEEP_SCEN)):
+        js.append({"name": f"concurrent-deep/{i}", "part": "concurcase", "idx": i, "curve": list(smallcurve.TABLE[0]), "deep": True, "weight": 8})
     from vf.runner import long_jobs
     js += long_jobs(curve=list(smallcurve.TABLE[5]))
     from vf.runner import interrupt_jobs
@@ -407,6 +424,11 @@ def jobs(tier, seed):
 
 
 def run_job(job):
+    if job["part"] == "concurcase":
+        from vf.runner import run_concur_job
+        ops = deep_ops(job)
+        scens = [{"threads": [ops[i] for i in sc[0]], "warm": [ops[i] for i in sc[1]]} for sc in DEEP_SCEN]
+        return run_concur_job(job, scens, run_case, PROPERTY, ("bits/ecmath.py", "bits/utils.py", "bits/keys.py"), alphabet=ops)
     if job["part"] == "histconcur":
         from vf.runner import run_histconcur_job
         return run_histconcur_job(job, hist_ops(job), run_case, PROPERTY, CONCUR_FILES)
